@@ -284,33 +284,35 @@ def window_score(rescore=False):
     except KeyError:
         raise PhotoopException(('You have not set the environment variable ' +
                                 'PHOTO_CALIB!'))
-    del os.environ['PHOTO_CALIB']
-    #
-    # Read the file
-    #
     try:
-        resolve_dir = os.environ['PHOTO_RESOLVE']
-    except KeyError:
-        raise PhotoopException(('You have not set the environment variable ' +
-                                'PHOTO_RESOLVE!'))
-    filename = os.path.join(resolve_dir, 'window_flist.fits')
-    if rescore:
-        fitsmode = 'readonly'
-    else:
-        fitsmode = 'update'
-    try:
-        flist = fits.open(filename, mode=fitsmode)
-    except OSError:
-        raise PhotoopException('Unable to read FLIST file.')
-    #
-    # Construct the scores filling in the values to FLIST.SCORE
-    #
-    flist[1].data['SCORE'][:] = sdss_score(flist)
-    if rescore:
-        flist.writeto(os.path.join(resolve_dir, 'window_flist_rescore.fits'))
-    flist.close()
-    #
-    # Restore the PHOTO_CALIB variable
-    #
-    os.environ['PHOTO_CALIB'] = calib_dir_save
+        del os.environ['PHOTO_CALIB']
+        #
+        # Read the file
+        #
+        try:
+            resolve_dir = os.environ['PHOTO_RESOLVE']
+        except KeyError:
+            raise PhotoopException(('You have not set the environment variable ' +
+                                    'PHOTO_RESOLVE!'))
+        filename = os.path.join(resolve_dir, 'window_flist.fits')
+        if rescore:
+            fitsmode = 'readonly'
+        else:
+            fitsmode = 'update'
+        try:
+            flist = fits.open(filename, mode=fitsmode)
+        except OSError:
+            raise PhotoopException('Unable to read FLIST file.')
+        #
+        # Construct the scores filling in the values to FLIST.SCORE
+        #
+        flist[1].data['SCORE'][:] = sdss_score(flist)
+        if rescore:
+            flist.writeto(os.path.join(resolve_dir, 'window_flist_rescore.fits'))
+        flist.close()
+    finally:
+        #
+        # Restore the PHOTO_CALIB variable, also if something failed.
+        #
+        os.environ['PHOTO_CALIB'] = calib_dir_save
     return
